@@ -601,6 +601,50 @@ func genLattice(a *Args, r *Rng, emit func(c *lcase), history func(base lcase, s
 			}
 		}
 	}
+	// ---- keykind: an extra extended attribute of every key kind x criticality x plugin situation x position ----
+	type plugSit struct {
+		pa int
+		pm pmCfg
+		l  levelSpec
+	}
+	sits := []plugSit{
+		{0, pmOK("TI", "Rev"), strict},                       // no plugin demanded
+		{2, pmOK("TI"), strict},                              // executed: trusted identity
+		{2, pmOK("Rev"), strict},                             // executed: revocation
+		{2, pmOK("TI", "Rev"), levelSpec{"permissive", nil}}, // executed: both
+		{2, pmOK("Rev"), customLevels[0]},                    // installed, not executed (revocation skipped)
+		{2, pmCfg{Kind: 1}, strict},                          // not installed
+		{2, pmCfg{Kind: 0}, strict},                          // nil manager
+	}
+	for _, format := range []string{MtCOSE, MtJWS} {
+		for kk := -1; kk <= 3; kk++ { // -1: string key
+			if format == MtJWS && kk >= 0 {
+				continue // JSON member names are strings
+			}
+			for _, critical := range []bool{true, false} {
+				for _, sit := range sits {
+					for _, order := range []int{0, 1} {
+						for _, entry := range []string{"Verify", "VerifyBlob"} {
+							s0 := okSc()
+							s0.Format, s0.PAttr, s0.AttrOrder = format, sit.pa, order
+							switch {
+							case kk < 0 && critical:
+								s0.Crit = true
+							case kk < 0:
+								s0.NonCritAttr = true
+							case critical:
+								s0.NonStr, s0.IntKeyKind = true, kk
+							default:
+								s0.NonStrNonCrit, s0.IntKeyKind = true, kk
+							}
+							put(lcase{Fam: "keykind", Entry: entry, OCI: doc(2, sit.l), Blob: doc(2, sit.l), PM: sit.pm, Impl: implCfg{Kind: 1}, Sc: s0})
+						}
+					}
+				}
+			}
+		}
+	}
+
 	// ---- syntax: rarely used spellings of "no applicable statement", plugin versions with build metadata ----
 	for nk := 0; nk <= 5; nk++ {
 		for _, entry := range allEntries {
